@@ -491,13 +491,8 @@ func genBatch(t *rapid.T, c *ev.Case, label string, maxRows int) []mRow {
 			var v string
 			switch rapid.IntRange(0, 250).Draw(t, "tvkind") {
 			case 137: // rapid favours the ends of a range: a middle value makes this branch rare
-				ln := rapid.SampledFrom([]int{255, 256, 65535, 65536}).Draw(t, "tvlen")
-				if ln == 65536 {
-					// known finding C07-tagvalue-65536 (replays/C07/rows_tagvalue_65536.json): the parser accepts it,
-					// the batch codec writes its length as 0 and the receiver dies; left out of the main run
-					c.Excluded("tag value of exactly 65536 bytes")
-					ln = 65535
-				}
+				// 65535 is the longest tag value the parser accepts (C07-tagvalue-65536, fixed in /repo; the replay is the regression case)
+				ln := rapid.SampledFrom([]int{255, 256, 65534, 65535}).Draw(t, "tvlen")
 				v = strings.Repeat("v", ln)
 				c.Class("tagvalue_long")
 			default:
@@ -610,13 +605,9 @@ func TestRowBatch(t *testing.T) {
 		rc.Reuse = rapid.SampledFrom([]string{"fresh", "wal", "decoder"}).Draw(t, "reuse")
 		if rc.Reuse != "fresh" {
 			rc.Prev = genBatch(t, c, "prev", 6)
-			// known finding C07-indexlist-reuse (replays/C07/rows_indexlist_reuse.json): unmarshalIndexOptions mis-sizes a reused
-			// IndexList and panics; batches with index options are decoded into pools that have not held index options before
+			// (C07-indexlist-reuse, fixed in /repo: pools that held index options are reused freely)
 			if hasIdx(rc.Rows) && hasIdx(rc.Prev) {
-				for i := range rc.Prev {
-					rc.Prev[i].Idx = nil
-				}
-				c.Excluded("receiver pools reused by two batches that both carry index options")
+				c.Class("pool_reuse_with_index_options")
 			}
 		}
 		c.Class("receiver=" + rc.Reuse)
